@@ -77,7 +77,8 @@ def check_config(ctx, F, tag):
         sb = F.body(sup)
         t = sb.term_of_local(0)
         env = {}
-        oks = m(Call(lambda n: n.endswith("::ne"), SelfField(field), ANY), t) and is_none_term(core(t)[2][1])
+        oks = (m(Call(lambda n: n.endswith("::ne"), SelfField(field), ANY), t) and is_none_term(core(t)[2][1])) or \
+            m(Call(lambda n: n.startswith("std::option::Option::<") and n.endswith("::is_some"), SelfField(field)), t)
         ctx.ob("C19.R1.supports-reads-matching-field", sup + tag, loc(sb.raw["span"]), oks, "term-shape", "%s() = %s" % (sup.split("::")[-1], tstr(t)[:120]))
     ps = F.body("<bit_vector::BitVector as ops::PredSucc<'a>>::enable_pred_succ")
     names = sorted(callee_name(t) for _, t in ps.calls())
@@ -128,7 +129,7 @@ def check_config(ctx, F, tag):
                     ctx.ob("C19.R3.constructor-starts-without-supports", b.name + tag, loc(st["sp"]), ok, "term-shape",
                            "rank/select/select_zero = %s" % [tstr(b.term_of_operand(ops[f]))[:40] for f in OPTION_FIELDS])
     ctx.count("bitvector-aggregates" + tag, naggs)
-    ctx.floor("bitvector-aggregates" + tag, 3)
+    ctx.floor("bitvector-aggregates" + tag, 2)
     # validation edges in BitVector::load only refuse: every block reachable from a validation-failure edge returns Err (no aggregate)
     lb = F.body("<bit_vector::BitVector as serialize::Serialize>::load")
     agg_blocks = [bi for bi, si, st in lb.stmts() if st["s"] == "assign" and st["rv"]["r"] == "agg" and st["rv"].get("def") == BV]
@@ -157,7 +158,8 @@ def check_config(ctx, F, tag):
             detail = "take limit = %s; loaded length = %s" % (tstr(lim)[:100], tstr(size)[:60])
             # skipping happens only for a non-zero length
             fs = facts_at(sk, [bi for bi, t in sk.calls() if t is takes[0]][0])
-            ok = ok and any(f[0] == "cmp" and f[1] == "Gt" and core(f[2]) == core(size) and m(Const(0), f[3]) for f in fs)
+            from guards import fact_nonzero
+            ok = ok and fact_nonzero(fs, size)
     ctx.ob("C19.R4.skip-option-length", "serialize::skip_option" + tag, loc(sk.raw["span"]), ok, "term-provenance", detail)
 
     # ---------------- R5
